@@ -207,7 +207,7 @@ pub fn check_steps(c: &StepCase) -> (Verdict, StepStats) {
     }
     let mut inputs_dirty = false;
     for (i, op) in c.ops.iter().enumerate() {
-        if !matches!(op, Op::Input(_, _)) && !matches!(op, Op::AsmStep | Op::AsmSteps(_)) {
+        if matches!(op, Op::Edges(_) | Op::CpuReset) {
             inputs_dirty = false;
         }
         match op {
@@ -235,7 +235,9 @@ pub fn check_steps(c: &StepCase) -> (Verdict, StepStats) {
                     // instruction-level cross-check from a clean boundary: exactly one instruction
                     // (an opcode fetched from an input register is already latched at a boundary: no model
                     // cross-check right after an input change)
-                    let model = if at_boundary && t.state() == State::Running && !snap.pending_edge_interrupt && !inputs_dirty {
+                    // (the interrupt status register 0xF9 is also left out: the library clears status bits when the
+                    // byte 0x2C is loaded into the IR, whose timing the instruction-level model does not describe)
+                    let model = if at_boundary && t.state() == State::Running && !snap.pending_edge_interrupt && !inputs_dirty && t.bus().read(0xF9) == 0 {
                         Some(model_from_machine(&t))
                     } else {
                         None
